@@ -569,8 +569,10 @@ pub fn denote(env: &Env) -> Result<ExpectedTx, EvalErr> {
                     if p.len() != 28 {
                         return unsupported("mint policy must be 28 bytes in the modelled fragment");
                     }
-                    if *q > BigInt::from(i64::MAX) || *q < BigInt::from(i64::MIN) {
-                        oor.push(format!("mint quantity {}", q));
+                    // a burn block contributes -q to the mint field
+                    let signed = if is_burn { -q.clone() } else { q.clone() };
+                    if signed > BigInt::from(i64::MAX) || signed < BigInt::from(i64::MIN) {
+                        oor.push(format!("mint quantity {}", signed));
                     }
                 }
             }
